@@ -10,8 +10,9 @@ System description (shared by the 'net' and 'bimol' sub-checks)
                 }, ...],
      "comment": bool,
      "c0": [float >= 0 per species], "t0": float, "times": [increasing floats > t0],
-     "c0_euler": [float >= 0 per species]       # optional second state at which only the Euler-step clause is judged
-     }
+     "c0_euler": [float >= 0 per species],      # optional second state at which only the Euler-step clause is judged
+     "builder": {"dep_scaling": s, "indep_scaling": u}   # optional: get_odesys(rsys, SymbolicSys=ScaledSys, ...); the
+     }                                                  #   physical system, hence every expected value, is unchanged
 
 Reference semantics (law of mass action, computed with Fractions from the description only):
     rate_j = k_j * prod_i c_i**reac_ij ;  dc_i/dt = sum_j (prod_ij - reac_ij - inact_ij) * rate_j
@@ -479,6 +480,15 @@ def _log_uniform(draw, lo, hi):
     return float(10.0 ** u)
 
 
+DEP_SCALINGS = [10.0, 1000.0, 1e6, 1.0]
+INDEP_SCALINGS = [1.0, 1.0, 1e-3, 100.0]
+
+
+def _builder(draw):
+    """Arguments of get_odesys(rsys, SymbolicSys=ScaledSys, dep_scaling=..., indep_scaling=...)."""
+    return {"dep_scaling": draw(st.sampled_from(DEP_SCALINGS)), "indep_scaling": draw(st.sampled_from(INDEP_SCALINGS))}
+
+
 def _subst(draw, n, allow_explicit=True):
     mode = draw(st.sampled_from(["none", "list", "explicit", "str"] if allow_explicit else ["none", "list", "str"]))
     order = list(draw(st.permutations(list(range(n))))) if mode != "none" else list(range(n))
@@ -506,7 +516,7 @@ def _float_at_least(q):
 
 
 @st.composite
-def networks(draw, max_species=7, max_rxns=8, decades=8, inact=False):
+def networks(draw, max_species=7, max_rxns=8, decades=8, inact=False, scaled=False):
     """First-order networks balanced by construction: a species is a base fragment, an isomer of an earlier
     species, or the sum of a multiset of earlier species; a reaction X -> products is obtained from [X] by
     rewriting entries into an isomer or into their defining multiset.
@@ -705,6 +715,8 @@ def networks(draw, max_species=7, max_rxns=8, decades=8, inact=False):
             theta = draw(st.sampled_from([0.5, 0.1, 0.9, 0.01, 0.999, 3.0]))
             scarce[y] = theta * rate * h_ref if rate > 0 else 1.0
         out["c0_euler"] = scarce
+    if scaled and draw(st.integers(0, 3)) == 3:       # a quarter of the networks through ScaledSys
+        out["builder"] = _builder(draw)
     return out
 
 
@@ -799,9 +811,12 @@ def bimolecular(draw, decades=6, kinds=BIMOL_KINDS):
     while len(times) < 3:
         base = times[-1] if times else t0
         times.append(base + (abs(base - t0) if base != t0 else tau * 0.01))
-    return {"species": [{"key": ("S%d" % i if explicit else k), "comp": {str(z): c for z, c in sorted(comp.items())}}
-                        for i, (k, comp) in enumerate(sp)],
-            "subst": subst, "rxns": rxns, "comment": draw(st.booleans()), "c0": c0, "t0": t0, "times": times}
+    out = {"species": [{"key": ("S%d" % i if explicit else k), "comp": {str(z): c for z, c in sorted(comp.items())}}
+                       for i, (k, comp) in enumerate(sp)],
+           "subst": subst, "rxns": rxns, "comment": draw(st.booleans()), "c0": c0, "t0": t0, "times": times}
+    if draw(st.booleans()):                            # half of the second-order systems through ScaledSys
+        out["builder"] = _builder(draw)
+    return out
 
 
 # ---------------------------------------------------------------------------------------------------------
